@@ -182,7 +182,7 @@ func ZZ_C10_Callers() {
 	k, ctx := env.K, env.Ctx
 	chain, idA, idB := zzTwoTokens(env)
 	pool := zzFillPool(env, chain, idA, idB, 1)
-	if vrt.Choose("caller", 2) == 0 {
+	{
 		srv := msgServer{Keeper: k}
 		denom := []string{"hub", "usdt", "nope"}[vrt.Choose("denom", 3)]
 		var err error
@@ -206,28 +206,5 @@ func ZZ_C10_Callers() {
 			})
 		}
 		return
-	}
-	zzCreateBatchTxsHook(ctx, chain, k)
-	vrt.Reach("c10.auto")
-	n := 0
-	k.IterateOutgoingTxsByType(ctx, chain, types.BatchTxPrefixByte, func(_ []byte, otx types.OutgoingTx) bool {
-		n++
-		btx := otx.(*types.BatchTx)
-		vrt.Assert("c10.auto.nonempty", len(btx.Transactions) >= 1)
-		return false
-	})
-	vrt.Assert("c10.auto.count", n == len(pool))
-}
-
-// zzCreateBatchTxsHook mirrors what abci.createBatchTxs does with the keeper API (the abci function itself is
-// exercised from package mhub2 harnesses): one BuildBatchTx(…, 100) per token id present in the pool, sorted.
-func zzCreateBatchTxsHook(ctx sdk.Context, chainId types.ChainID, k Keeper) {
-	coinIds := map[string]bool{}
-	k.IterateUnbatchedSendToExternals(ctx, chainId, func(ste *types.SendToExternal) bool {
-		coinIds[ste.Token.ExternalTokenId] = true
-		return false
-	})
-	for id := range coinIds {
-		k.BuildBatchTx(ctx, chainId, id, BatchTxSize)
 	}
 }
